@@ -486,6 +486,10 @@ def _s2c_literal_numbers_exact(program, res):
         res.ok("C14-S2b", "_literal_text: no float() conversion of the value", nontrivial=False)
         return
     for c in conv:
+        # a conversion that sits under a test for a floating kind converts floats only
+        if any(isinstance(t_, ast.If) and "floating" in unparse(t_.test) and any(x is c for st in t_.body for x in ast.walk(st)) for t_ in ast.walk(f.node)):
+            res.ok("C14-S2b", f"_literal_text: `{unparse(c)}` is applied to floating values only")
+            continue
         earlier = []
         for st in f.node.body:
             if any(x is c for x in ast.walk(st)):
